@@ -575,6 +575,7 @@ def _generators_fold(L, repo, ref):
     tci = repo.need_class("gsm_shared", "TrainingSeqGMSK")
     members = Ev(repo, gs).enum_members(tci)
     rows = []
+    picks = []
     try:
         for meth, bt in (("gen_nb", "NORMAL"), ("gen_sb", "SYNC"), ("gen_ab", "ACCESS")):
             c4, g = repo.find_method(rci, meth)
@@ -597,6 +598,16 @@ def _generators_fold(L, repo, ref):
                 seq = m.attrs.get("seq")
                 rows.append((meth, bt, m.name, (ref["burst_len"], list(seq) if seq is not None else None),
                              (len(out) if hasattr(out, "__len__") else None, list(out[start:start + ln]) if hasattr(out, "__getitem__") else None)))
+                # ... and the toolkit's own detector finds that sequence in the generated burst ('TSC / TSC set are those of
+                # the training sequence actually present ... such as the toolkit's own burst generator produces')
+                c5, pk_ = repo.find_method(tci, "pick")
+                if pk_ is not None and hasattr(out, "__getitem__"):
+                    from consteval import ClassRef as _CR2
+                    try:
+                        r2 = Ev(repo, gs).call_func(pk_, gs, [(params(pk_)[0], _CR2(tci)), (params(pk_)[1], bytearray(out))], self_cls=tci)
+                        picks.append((meth, bt, m.name, getattr(r2, "name", r2)))
+                    except Raised as ex2:
+                        picks.append((meth, bt, m.name, "raises %s" % ex2.cls))
             asked = []
             e = Ev(repo, rm, env={params(g)[1]: None}, self_cls=rci)
             e.hooks = {"random.randint": lambda a: 1, "self.get_rand_tsc": lambda a: (asked.append(a[0]), mine[0])[1]}
@@ -611,6 +622,8 @@ def _generators_fold(L, repo, ref):
             L.require("C10.R3", FR, "RandBurstGen." + meth, "default training sequence is drawn from the %s sequences" % bt, want, got)
         else:
             L.require("C10.R3", FR, "RandBurstGen." + meth, "%s burst generated with %s: 148 bits, the sequence where pick() looks for it" % (bt, nm), want, got)
+    for meth, bt, nm, got in picks:
+        L.require("C10.R3", FR, "RandBurstGen." + meth, "%s burst generated with %s: TrainingSeqGMSK.pick() finds that sequence in it" % (bt, nm), nm, got)
     L.floor("C10.R3", "generator / training sequence pairs folded", len(rows), 15)
     return True
 
